@@ -16,6 +16,7 @@ import (
 	"math/rand"
 	"os"
 	"path/filepath"
+	"strings"
 
 	"github.com/uber-go/tally"
 
@@ -41,6 +42,7 @@ type write struct {
 	Res     string `json:"res"`
 }
 type scenario struct {
+	Evict    bool    `json:"evict"` // second generation: the store already holds the blob (plus leftovers); evict it first
 	Dir      string  `json:"dir"`
 	BlobSeed int64   `json:"blob_seed"`
 	Length   int     `json:"length"`
@@ -113,6 +115,11 @@ func child(c *eng.Ctx) error {
 	if err != nil {
 		return err
 	}
+	if sc.Evict {
+		if err := ta.DeleteTorrent(d); err != nil {
+			return err
+		}
+	}
 	t, err := ta.CreateTorrent("ns", d)
 	if err != nil {
 		return err
@@ -182,6 +189,23 @@ func run(c *eng.Ctx) error {
 			return fmt.Errorf("scenario %d: child download did not complete", s)
 		}
 		c.Inc("fs_ops", len(ops))
+		// crash points that leave the blob in the cache AND leftovers of its download directory: after the rename of the data
+		// file into the cache, before the last file of the download entry's directory is unlinked
+		var orphans []int
+		for i, o := range ops {
+			if o.Kind == "rename" && strings.HasPrefix(o.Path, "download/") && strings.HasPrefix(o.Path2, "cache/") && strings.HasSuffix(o.Path, "/data") {
+				dir := filepath.Dir(o.Path)
+				lastUnlink := -1
+				for j := i + 1; j < len(ops); j++ {
+					if ops[j].Kind == "unlink" && filepath.Dir(ops[j].Path) == dir {
+						lastUnlink = j
+					}
+				}
+				for p := i + 1; p <= lastUnlink; p++ {
+					orphans = append(orphans, p)
+				}
+			}
+		}
 		for p := 0; p <= len(ops); p++ {
 			if c.Only >= 0 && tid != c.Only {
 				tid++
@@ -196,11 +220,74 @@ func run(c *eng.Ctx) error {
 			if p < len(ops) {
 				mark = ops[p].Mark
 			}
-			emit(c, tid, s, p, ops, done, mark, dst)
+			emit(c, tid, s, p, ops, done, mark, dst, 1)
 			os.RemoveAll(dst)
 			tid++
 		}
 		os.RemoveAll(sc.Dir)
+		// ---- second generation: the blob is evicted and downloaded again on top of what a crash inside the commit left
+		// behind; every crash point of THAT download is materialized on top of the leftovers and probed the same way
+		maxOrph := c.N(1, 8)
+		if c.Quick() && s%3 != 1 {
+			maxOrph = 0 // quick: two of the six scenarios get a second generation
+		}
+		if len(orphans) > maxOrph {
+			orphans = orphans[:maxOrph] // the earliest crash points leave the most behind
+		}
+		for _, p1 := range orphans {
+			sc2 := scenario{Evict: true, BlobSeed: done.BlobSeed, Length: done.Length, PieceLen: done.PieceLen}
+			_, _, mi := blobOf(sc2)
+			for i := 0; i < mi.NumPieces(); i++ {
+				sc2.Writes = append(sc2.Writes, write{Piece: i, Payload: "good"})
+			}
+			sc2.Dir = filepath.Join(root, fmt.Sprintf("s%d-g2-%d", s, p1))
+			if err := crashlab.Materialize(ops, p1, sc2.Dir); err != nil {
+				return err
+			}
+			spath2 := filepath.Join(root, fmt.Sprintf("s%d-g2-%d.json", s, p1))
+			raw2, _ := json.Marshal(sc2)
+			os.WriteFile(spath2, raw2, 0o644)
+			env2 := append(os.Environ(), "KVH_SCENARIO="+spath2)
+			ops2, out2, err := crashlab.Record([]string{self, "c04child", "-out", spath2 + ".childout"}, sc2.Dir, env2)
+			if err != nil {
+				return fmt.Errorf("record scenario %d generation 2 (after prefix %d): %v\n%s", s, p1, err, out2)
+			}
+			var done2 scenario
+			if rawOut2, err := os.ReadFile(spath2 + ".out"); err == nil {
+				json.Unmarshal(rawOut2, &done2)
+			}
+			os.RemoveAll(sc2.Dir)
+			if !done2.Complete {
+				// the second download itself went wrong on the real code without any further crash: a rejected trace
+				c.W.Reset(tid, map[string]any{"scenario": s, "prefix": 0, "nops": len(ops2), "gen": 2, "after": p1})
+				c.W.Ev("SecondDownloadFailed", "after", p1)
+				tid++
+				continue
+			}
+			c.Inc("fs_ops_gen2", len(ops2))
+			for p2 := 0; p2 <= len(ops2); p2++ {
+				if c.Only >= 0 && tid != c.Only {
+					tid++
+					continue
+				}
+				prefixes++
+				dst := filepath.Join(root, fmt.Sprintf("m%d", tid))
+				if err := crashlab.Materialize(ops, p1, dst); err != nil {
+					return err
+				}
+				if err := crashlab.Materialize(ops2, p2, dst); err != nil {
+					return err
+				}
+				mark := len(done2.Writes) + 1
+				if p2 < len(ops2) {
+					mark = ops2[p2].Mark
+				}
+				emit(c, tid, s, p2, ops2, done2, mark, dst, 2)
+				os.RemoveAll(dst)
+				tid++
+			}
+			c.Inc("gen2_recordings", 1)
+		}
 	}
 	c.Stats["scenarios"] = nsc
 	c.Stats["crash_points"] = prefixes
@@ -210,7 +297,7 @@ func run(c *eng.Ctx) error {
 
 func bools(n int) []bool { return make([]bool, n) }
 
-func emit(c *eng.Ctx, tid, s, p int, ops []crashlab.Op, sc scenario, mark int, dir string) {
+func emit(c *eng.Ctx, tid, s, p int, ops []crashlab.Op, sc scenario, mark int, dir string, gen int) {
 	blob, d, mi := blobOf(sc)
 	n := mi.NumPieces()
 	lastop, nextop := "none", "none"
@@ -221,7 +308,7 @@ func emit(c *eng.Ctx, tid, s, p int, ops []crashlab.Op, sc scenario, mark int, d
 		nextop = ops[p].String()
 	}
 	c.W.Reset(tid, map[string]any{"scenario": s, "prefix": p, "nops": len(ops), "npieces": n, "length": sc.Length,
-		"piecelen": sc.PieceLen, "lastop": lastop, "nextop": nextop})
+		"piecelen": sc.PieceLen, "lastop": lastop, "nextop": nextop, "gen": gen})
 	// pieces whose good write had returned before the crash call (mark = index of the call in flight; 0 = create)
 	done := bools(n)
 	for i, w := range sc.Writes {
@@ -236,84 +323,103 @@ func emit(c *eng.Ctx, tid, s, p int, ops []crashlab.Op, sc scenario, mark int, d
 	c.W.Ev("Crash", "done", done, "inflight", inflight, "phase", map[bool]string{true: "create", false: "write"}[mark == 0])
 
 	// ---- real recovery on the materialized directories
-	res, complete := "ok", false
-	bits, region := bools(n), bools(n)
-	served, cacheOK := false, false
-	var t storage.Torrent
 	var cads *store.CADownloadStore
-	func() {
-		defer func() {
-			if r := recover(); r != nil {
-				res = "panic"
-			}
-		}()
-		var ta *agentstorage.TorrentArchive
-		var err error
-		cads, ta, err = open(dir, mi)
-		if err != nil {
-			res = "openerror"
-			return
-		}
-		t, err = ta.CreateTorrent("ns", d)
-		if err != nil {
-			res = cls(err)
-			return
-		}
-		complete = t.Complete()
-		bf := t.Bitfield()
-		for i := 0; i < n; i++ {
-			bits[i] = bf.Test(uint(i))
-		}
-	}()
-	if cads != nil {
-		// what the agent would serve from its cache, and what the data file really holds
-		if r, err := cads.Cache().GetFileReader(d.Hex()); err == nil {
-			b, _ := io.ReadAll(r)
-			r.Close()
-			served = true
-			cacheOK = bytes.Equal(b, blob)
-		}
-		if r, err := cads.Any().GetFileReader(d.Hex()); err == nil {
-			b, _ := io.ReadAll(r)
-			r.Close()
-			for i := 0; i < n; i++ {
-				off := int64(i) * mi.PieceLength()
-				end := off + mi.GetPieceLength(i)
-				region[i] = int64(len(b)) >= end && bytes.Equal(b[off:end], pieceBytes(blob, mi, i))
-			}
-		}
-	}
-	c.W.Ev("Recover", "res", res, "complete", complete, "bits", bits, "region", region, "served", served, "cacheok", cacheOK)
-
-	// ---- the download can be started again and completes with the correct content
-	final, finalOK := false, false
-	resume := "skipped"
-	if res == "ok" {
-		resume = "ok"
+	var ta *agentstorage.TorrentArchive
+	// request: CreateTorrent + what the agent reports and would serve, then the download is finished with correct pieces
+	request := func() bool {
+		res, complete := "ok", false
+		bits, region := bools(n), bools(n)
+		served, cacheOK := false, false
+		var t storage.Torrent
 		func() {
 			defer func() {
 				if r := recover(); r != nil {
-					resume = "panic"
+					res = "panic"
 				}
 			}()
-			for i := 0; i < n; i++ {
-				if t.HasPiece(i) {
-					continue
-				}
-				if err := t.WritePiece(piecereader.NewBuffer(append([]byte{}, pieceBytes(blob, mi, i)...)), i); err != nil {
-					resume = "writeerror"
+			var err error
+			if cads == nil {
+				cads, ta, err = open(dir, mi)
+				if err != nil {
+					cads, res = nil, "openerror"
 					return
 				}
 			}
-			final = t.Complete()
+			t, err = ta.CreateTorrent("ns", d)
+			if err != nil {
+				res = cls(err)
+				return
+			}
+			complete = t.Complete()
+			bf := t.Bitfield()
+			for i := 0; i < n; i++ {
+				bits[i] = bf.Test(uint(i))
+			}
+		}()
+		if cads != nil {
+			// what the agent would serve from its cache, and what the data file really holds
 			if r, err := cads.Cache().GetFileReader(d.Hex()); err == nil {
 				b, _ := io.ReadAll(r)
 				r.Close()
-				finalOK = bytes.Equal(b, blob)
+				served = true
+				cacheOK = bytes.Equal(b, blob)
 			}
-		}()
+			if r, err := cads.Any().GetFileReader(d.Hex()); err == nil {
+				b, _ := io.ReadAll(r)
+				r.Close()
+				for i := 0; i < n; i++ {
+					off := int64(i) * mi.PieceLength()
+					end := off + mi.GetPieceLength(i)
+					region[i] = int64(len(b)) >= end && bytes.Equal(b[off:end], pieceBytes(blob, mi, i))
+				}
+			}
+		}
+		c.W.Ev("Recover", "res", res, "complete", complete, "bits", bits, "region", region, "served", served, "cacheok", cacheOK)
+
+		// ---- the download can be started again and completes with the correct content
+		final, finalOK := false, false
+		resume := "skipped"
+		if res == "ok" {
+			resume = "ok"
+			func() {
+				defer func() {
+					if r := recover(); r != nil {
+						resume = "panic"
+					}
+				}()
+				for i := 0; i < n; i++ {
+					if t.HasPiece(i) {
+						continue
+					}
+					if err := t.WritePiece(piecereader.NewBuffer(append([]byte{}, pieceBytes(blob, mi, i)...)), i); err != nil {
+						resume = "writeerror"
+						return
+					}
+				}
+				final = t.Complete()
+				if r, err := cads.Cache().GetFileReader(d.Hex()); err == nil {
+					b, _ := io.ReadAll(r)
+					r.Close()
+					finalOK = bytes.Equal(b, blob)
+				}
+			}()
+		}
+		c.W.Ev("Resume", "res", resume, "complete", final, "cacheok", finalOK)
+		return resume == "ok" && final && finalOK
 	}
-	c.W.Ev("Resume", "res", resume, "complete", final, "cacheok", finalOK)
+	if request() {
+		// ---- the committed blob is evicted (TTL cleanup / manual removal) and requested again in the same process
+		err := ta.DeleteTorrent(d)
+		served := false
+		if r, e := cads.Cache().GetFileReader(d.Hex()); e == nil {
+			r.Close()
+			served = true
+		}
+		c.W.Ev("Evict", "res", cls(err), "served", served)
+		if err == nil {
+			request()
+		}
+	}
 	if cads != nil {
 		cads.Close()
 	}
